@@ -15,12 +15,16 @@ CASE_TIMEOUT = 0.3
 MODEL_CASE_TIMEOUT = 3.0
 RULE = ("every line of generated programs and of the sample set rendered in random spellings: letter case per word, ? for PRINT, ' for REM, "
         "GO TO / GO SUB, dropped LET, =< and =>, blanks inside two-character relational operators, added / doubled / removed blanks and "
-        "tabs at non-alphanumeric boundaries, keywords glued to a following number, words run together where the leftmost-reserved-word rule "
+        "tabs at non-alphanumeric boundaries, keywords glued to a following number, numbers glued to a following ELSE / EQV / END, words run together where the leftmost-reserved-word rule "
         "gives the same words back (THENPRINT, IFNOTA, FORI); variants must give the same AST (modulo columns), the "
         "same listing (modulo LET and the remark marker) and whole programs the same transcript; non-trivial = a variant that differs from "
         "the original in at least 2 places; distinct = distinct (line, variant) pairs")
-ASSUMPTIONS = ["gluing a number to a following letter is not generated: an exponent letter there changes the literal (see DESIGN.md, finding on 1DX)"]
+ASSUMPTIONS = ["a number is glued only to the reserved words ELSE, EQV and END (whose first letter cannot start an exponent there); gluing it to arbitrary letters is not generated: an exponent letter followed by digits changes the literal"]
 EXHAUSTIVE = {"quick": False, "thorough": False}
+
+
+GLUE_LINES = ["10 IF A THEN 10 ELSE 20", "20 IF X>1 THEN PRINT 20000+20000 ELSE PRINT 0", "30 A=B EQV 5 EQV C", "40 IF A THEN B=1 ELSE B=2",
+              "50 IF A=2 THEN PRINT 7 ELSE PRINT 8", "60 PRINT 3 EQV 4", "70 IF Q THEN A%=30000+2767 ELSE A%=1", "80 IF A THEN PRINT 1 END"]
 
 
 def segments(line):
@@ -115,6 +119,10 @@ def vary_code(rng, code):
         s = re.sub(r"(<=|>=|<>|=<|=>)", lambda m: m.group(1)[0] + rng.choice([" ", "  "]) + m.group(1)[1], s)
     if rng.random() < 0.4:
         s = re.sub(r"\b(GOTO|THEN|GOSUB|TO|SUB|ELSE|RESTORE|RUN) (\d)", lambda m: m.group(1) + m.group(2) if rng.random() < 0.6 else m.group(0), s)
+    if rng.random() < 0.5:
+        # a number glued to a following reserved word that starts with an exponent letter (10ELSE, 5EQV, 3END): the letter is
+        # not an exponent (no digit or sign follows it), so the number ends before it and keeps its type
+        s = re.sub(r"(\d) +(ELSE|EQV|END)\b", lambda m: m.group(1) + m.group(2) if rng.random() < 0.7 else m.group(0), s)
     # blanks at non-alphanumeric boundaries
     out = ""
     for k, ch in enumerate(s):
@@ -193,7 +201,7 @@ def gen(tier, rng):
     cases = []
     nprog = 200 if tier == "quick" else 8000
     nvar = 4 if tier == "quick" else 16
-    lines = list(gen_lines.SAMPLE_PROGRAM_LINES)
+    lines = list(gen_lines.SAMPLE_PROGRAM_LINES) + GLUE_LINES
     progs = []
     for _ in range(nprog):
         prog, inputs = gen_prog.generate(rng)
